@@ -42,7 +42,7 @@ def run_traces(cases, jobs=None, timeout=3600, tag="ptrace"):
     stats = {"states": 0, "transitions": 0, "consumed": 0, "jvms": 0, "wall": 0.0}
     if not cases:
         return {}, {}, stats
-    jobs = jobs or min(common.NCPU, 5)
+    jobs = jobs or min(common.NCPU, 4)
     weights = [len(c["events"]) + 5 for c in cases]
     shards = common.shard_by_weight(cases, weights, min(len(cases), jobs))
     envs = []
